@@ -559,8 +559,12 @@ def run(ctx):
                        "complete catalogue relation and lookup table; non-trivial = value with at least one deviation / plain family / catalogue")
     # thread-pair independence first (LINE events are switched off again before the enumeration)
     from checks import pair_ops  # noqa: PLC0415
-    from mc import pairs  # noqa: PLC0415
+    from mc import firstuse, pairs  # noqa: PLC0415
 
+    # first use in a process before anything else touches the library (the workers must be pristine)
+    fu_ops = [["fn", "SecsS01F03", 0], ["fn", "SecsS02F33", 0], ["lookup_shared", [[1, 1], [6, 12], [99, 1]]]]
+    if ctx.thorough:  # one forked child per execution: too slow for the quick tier of this check
+        firstuse.run_part(ctx, fu_ops, "C03", 1)
     ops = [["lookup_shared", [[1, 1], [6, 12], [99, 1]]], ["lookup_shared", [[14, 19], [1, 2]]]] + [["fn", n, p] for n, p in (("SecsS01F03", 0), ("SecsS05F01", 1), ("SecsS01F13", 0), ("SecsS02F33", 0))]
     # (the leaf codecs are line-traced by C01/C02's own pair parts; here the layers specific to functions: catalogue, SFDL reader, containers)
     pair_execs = pairs.run_part(ctx, ops if ctx.thorough else ops[:4], "C03", 1,
@@ -572,6 +576,11 @@ def run(ctx):
 
 
 def replay(ctx, detail):
+    if isinstance(detail.get("case"), dict) and detail["case"].get("part") == "first-use":
+        from mc import firstuse  # noqa: PLC0415
+
+        firstuse.replay(ctx, detail["case"], "C03")
+        return
     if isinstance(detail.get("case"), dict) and detail["case"].get("part") == "pair":
         from mc import pairs  # noqa: PLC0415
 
